@@ -9,7 +9,10 @@ EXTENDS Ast, TLC, Json, IOUtils
 
 CONSTANT MaxLen
 
-Insts == {"m", "a", "b", "c", "d"}  \* module-level, make(10), make(20), nested make2(30), make3(): middle function shadows a captured name
+Insts == {"m", "a", "b", "c", "d", "p", "u", "v"}
+   \* module-level, make(10), make(20), nested make2(30), make3(): middle function shadows a captured name,
+   \* p: the captured variable is a parameter (make4(40)); u, v: closures made in iterations 0 and 1 of a loop
+   \* body over a body-local variable (each iteration has its own variable)
 Fns == {"g", "i", "l", "t"}         \* reader, modify-writer, local-writer, typed local-writer (`x: int = x + 100`)
 Vias == {"direct", "shadow", "plain"}
 
@@ -43,6 +46,15 @@ Prologue ==
                       <<Let("mid", Fn("mid", <<>>, "[" \o FT \o "...]",
                                      <<Let("x", Bin("+", V("x"), I(1000)))>> \o Three)),
                         Ret(Call(V("mid"), <<>>))>>)),
+      Let("make4", Fn("make4", <<P("x", "int")>>, "[" \o FT \o "...]", Three)),
+      Let("make5", Fn("make5", <<>>, "[" \o FT \o "...]",
+                      <<LetT("out", "[" \o FT \o "...]", List(<<>>)),
+                        From(I(0), I(2), FALSE, <<>>, "n",
+                             <<Let("x", Bin("+", Bin("*", V("n"), I(100)), I(70))),
+                               Let("g", Reader("x")), Let("i", Writer("x")), Let("l", Local("x")), Let("t", TLocal("x")),
+                               ExprS(MCall(V("out"), "push", <<V("g")>>)), ExprS(MCall(V("out"), "push", <<V("i")>>)),
+                               ExprS(MCall(V("out"), "push", <<V("l")>>)), ExprS(MCall(V("out"), "push", <<V("t")>>))>>),
+                        Ret(V("out"))>>)),
       Let("use", Fn("use", <<P("f", FT)>>, "int", <<Let("x", I(99)), Ret(Call(V("f"), <<>>))>>)),
       Let("use2", Fn("use2", <<P("f", FT)>>, "int", <<Ret(Call(V("f"), <<>>))>>)),
       Let("a", Call(V("make"), <<I(10)>>)), Let("b", Call(V("make"), <<I(20)>>)),
@@ -50,6 +62,11 @@ Prologue ==
       Let("ag", Idx(V("a"), I(0))), Let("ai", Idx(V("a"), I(1))), Let("al", Idx(V("a"), I(2))), Let("at", Idx(V("a"), I(3))),
       Let("bg", Idx(V("b"), I(0))), Let("bi", Idx(V("b"), I(1))), Let("bl", Idx(V("b"), I(2))), Let("bt", Idx(V("b"), I(3))),
       Let("cg", Idx(V("c"), I(0))), Let("ci", Idx(V("c"), I(1))), Let("cl", Idx(V("c"), I(2))), Let("ct", Idx(V("c"), I(3))),
+      Let("p", Call(V("make4"), <<I(40)>>)),
+      Let("pg", Idx(V("p"), I(0))), Let("pi", Idx(V("p"), I(1))), Let("pl", Idx(V("p"), I(2))), Let("pt", Idx(V("p"), I(3))),
+      Let("w", Call(V("make5"), <<>>)),
+      Let("ug", Idx(V("w"), I(0))), Let("ui", Idx(V("w"), I(1))), Let("ul", Idx(V("w"), I(2))), Let("ut", Idx(V("w"), I(3))),
+      Let("vg", Idx(V("w"), I(4))), Let("vi", Idx(V("w"), I(5))), Let("vl", Idx(V("w"), I(6))), Let("vt", Idx(V("w"), I(7))),
       Let("d", Call(V("make3"), <<>>)),
       Let("dg", Idx(V("d"), I(0))), Let("di", Idx(V("d"), I(1))), Let("dl", Idx(V("d"), I(2))), Let("dt", Idx(V("d"), I(3)))>>
 
